@@ -71,16 +71,21 @@ func (r *Reader) Read() (seq.Sequence, error) {
 	for {
 		var err error
 		if buff, isPrefix, err = r.r.ReadLine(); err != nil {
-			if err != io.EOF || r.working == nil {
+			if err != io.EOF || (r.working == nil && len(line) == 0) {
 				return nil, err
 			}
-			s, err = r.working, r.err
-			r.working = nil
-			return s, err
-		}
-		line = append(line, buff...)
-		if isPrefix {
-			continue
+			if len(line) == 0 {
+				s, err = r.working, r.err
+				r.working = nil
+				return s, err
+			}
+			// The input ended inside a line that filled the read buffer exactly:
+			// the fragments collected so far are the final, unterminated line.
+		} else {
+			line = append(line, buff...)
+			if isPrefix {
+				continue
+			}
 		}
 		line = bytes.TrimSpace(line)
 		if len(line) == 0 {
